@@ -16,6 +16,8 @@ CLen(a)  == IF Len(a) = 0 THEN 0 ELSE 64 * (Len(a) - 1) + Len(a[Len(a)])
 Flat(a)  == [i \in 1..CLen(a) |-> a[((i - 1) \div 64) + 1][((i - 1) % 64) + 1]]
 SeqTok == Flat(Rec[1].seqtok)            \* the same table in every Reset of one run
 TracePresent == LET st == SeqTok IN {i \in 1..Len(st) : st[i] # 0}
+\* (file ids are global over archives AND generations of a re-used path: one 'generation' of ids suffices here)
+TracePresentAt == <<TracePresent>>
 VARIABLE tl
 
 \* the observed return value in the vocabulary of the specification
@@ -42,7 +44,7 @@ Why(e) ==
       ELSE "slot-content"
 
 Init == tl = 1 /\ vreq = <<>> /\ vthreads = 0 /\ vbatch = 0 /\ vskip = FALSE /\ vtask = <<>> /\ vwk = <<>>
-        /\ vhandle = <<>> /\ vout = <<>> /\ vret = NoRes
+        /\ vgen = 1 /\ vhandle = <<>> /\ vout = <<>> /\ vret = NoRes
 Next == /\ tl <= Len(Rec) /\ tl' = tl + 1 /\ UNCHANGED pxvars
         /\ IF Rec[tl].ev = "Par"
            THEN LET w == Why(Rec[tl]) IN IF w # "" THEN PrintT(<<"BAD", tl, w>>) ELSE TRUE
